@@ -91,9 +91,8 @@ def pickRef (a : Arr) (st : GS) (mk : Ref → Op) : Gen (Op × GS) := do
   if wantSlot && a.size > 0 then
     let i ← rnd a.size
     let op := mk (.slot i)
-    -- any element may be passed to the guarded `const T&` operations (the repaired code copies it first);
-    -- push_back(T&&)/emplace_back/emplace are not guarded in /repo: only where the model says it is safe
-    if legal st.mx a op && unguardedOK a op then return (op, st)
+    -- any element may be passed (const T&, T&& or emplace argument): the repaired code copies/moves it safely
+    if legal st.mx a op then return (op, st)
   let (v, st) := fresh st
   return (mk (.ext v), st)
 
@@ -249,10 +248,6 @@ def genMacro (st : GS) : Gen (Macro × GS) := do
     else
       return ({ line := s!"I w viewMismatch {i} {len} {j} {len2}", ops := [], forceThrown := true }, st)
 
-def unguardedW (w : World) : WOp → Bool
-  | .on k op => unguardedOK (w.get k) op
-  | _ => true
-
 partial def genNormal (out : IO.FS.Stream) (et : String) (mx : Nat) (big : Bool) (n : Nat) (g : SplitMix) : IO Unit := do
   let mut g := g
   let mut left := n
@@ -277,8 +272,8 @@ partial def genNormal (out : IO.FS.Stream) (et : String) (mx : Nat) (big : Bool)
         let mut ok := true
         let mut thrown := m.forceThrown
         for op in m.ops do
-          if ok && wlegal mx w op && unguardedW w op then
-            w := wstepFixed mx w op
+          if ok && wlegal mx w op then
+            w := wstepCurrent mx w op
             thrown := thrown || w.thrown
           else ok := false
         if ok then
@@ -290,8 +285,8 @@ partial def genNormal (out : IO.FS.Stream) (et : String) (mx : Nat) (big : Bool)
         let ((wop, st1), g1) := (genWOp st big).run g
         g := g1
         st := st1
-        if wlegal mx st.w wop && unguardedW st.w wop then
-          let w' := wstepFixed mx st.w wop
+        if wlegal mx st.w wop then
+          let w' := wstepCurrent mx st.w wop
           out.putStrLn (wopTok wop)
           out.putStrLn (obsTok w')
           st := { st with w := { w' with thrown := false } }
